@@ -151,6 +151,7 @@ func readRecordAt(path string, f *os.File, offset uint32) (wrec *WriteRecord, er
 			path, offset, wrec, err.Error(), n)
 		logger.Errorf(err.Error())
 		cmem.DBRL.GetData.SubSizeAndCount(kv.Cap)
+		kv.Free() // not yet owned by wrec.rec.Payload, which the deferred cleanup frees
 		return
 	}
 	wrec.rec.Key = make([]byte, wrec.ksz)
